@@ -136,6 +136,7 @@ fn cmd_reader(job: &Value) {
             seekable: j["seekable"].as_bool().unwrap_or(true),
             branch_ops: j["branch_ops"].as_array().cloned().unwrap_or_default(),
             fault_at: 0,
+            seek_fault_at: 0,
         };
         if let Some(seqs) = j["seqs"].as_array() {
             for s in seqs {
@@ -165,8 +166,11 @@ fn cmd_reader(job: &Value) {
                 run_id += 1;
                 // every third seekable random history meets one transient source fault somewhere behind the metadata
                 run.fault_at = if run.seekable && r["faults"].as_bool().unwrap_or(false) && run_id % 3 == 0 { 2 + rng.below(40) as usize } else { 0 };
+                // ... and every third one (another third) a source that refuses one of its seek calls, after which the caller just goes on
+                run.seek_fault_at = if run.seekable && r["faults"].as_bool().unwrap_or(false) && run_id % 3 == 1 { 1 + rng.below(6) as usize } else { 0 };
                 run.execute(&ops, &mut t, run_id);
                 run.fault_at = 0;
+                run.seek_fault_at = 0;
             }
         }
     }
